@@ -182,6 +182,7 @@ func discharge(rs []*FnResult, par int, quick, full time.Duration) {
 	// queries must be built sequentially (term table is not thread-safe)
 	queries := make([]string, len(jobs))
 	qfQueries := make([]string, len(jobs))
+	nearQueries := make([]string, len(jobs))
 	for i, j := range jobs {
 		base := j.r.Assumes
 		if j.o.caseAssumes != nil {
@@ -198,6 +199,31 @@ func discharge(rs []*FnResult, par int, quick, full time.Duration) {
 		j.o.HasQuant = hasQuant(append(as, j.o.Cond))
 		j.o.QuerySz = termSize(append(as, j.o.Cond))
 		queries[i] = BuildQuery(as, j.o.Cond, gv)
+		if !hasQuant([]*Term{j.o.Cond, j.o.PC}) && len(as) >= 30 {
+			// first attempt: only the quantifier-free assumptions that mention
+			// a symbol of the goal itself (no transitive closure)
+			live := map[string]bool{}
+			for _, g := range []*Term{j.o.PC, j.o.Cond} {
+				for sy := range symbolsOf(g) {
+					live[sy] = true
+				}
+			}
+			var near []*Term
+			for _, a := range as {
+				if hasQuant([]*Term{a}) {
+					continue
+				}
+				for sy := range symbolsOf(a) {
+					if live[sy] {
+						near = append(near, a)
+						break
+					}
+				}
+			}
+			if 2*len(near) <= len(as) {
+				nearQueries[i] = BuildQuery(near, j.o.Cond, gv)
+			}
+		}
 		if j.o.HasQuant && !hasQuant([]*Term{j.o.Cond, j.o.PC}) {
 			// quantified assumptions dropped: unsat of the weaker query is
 			// still a proof, and the solvers are far quicker on it
@@ -240,10 +266,16 @@ func discharge(rs []*FnResult, par int, quick, full time.Duration) {
 				o.Status, o.Solver, o.Secs, o.RawOut = r.status, r.solver, r.secs, r.out
 				return
 			}
-			if qfQueries[i] != "" {
+			if nearQueries[i] != "" {
+				r = solveQueryL(nearQueries[i], "QF_AUFBV", 1500*time.Millisecond, 4*time.Second)
+				if r.status == "unsat" {
+					r.solver += "(near)"
+				}
+			}
+			if r.status != "unsat" && qfQueries[i] != "" {
 				qt := full
-				if qt > 12*time.Second {
-					qt = 12 * time.Second
+				if qt > 20*time.Second {
+					qt = 20 * time.Second
 				}
 				r = solveQueryL(qfQueries[i], "QF_AUFBV", quick, qt)
 				if r.status == "unsat" {
